@@ -374,7 +374,7 @@ class SiteAnalysis:
         if k == "structure_self":
             return [("unsupported", "re-dispatches on its own union type (infinite recursion)")]
         if k in ("none", "fallthrough"):
-            if alt != NONE:
+            if alt != NONE and w.alt.get(root) != NONE:
                 return [("unsupported", "returns None for a non-null value")]
             return []
         if k == "pass":
